@@ -1,5 +1,6 @@
 import DendroModel.Model.C13
 import DendroModel.Theory.C13Sim
+import DendroModel.Theory.C13Progress
 /-! C13 — property theorems about the reading routes of `Model/C13.lean` (the very definitions `drv_c13` runs).
 
 Only property theorems live in `namespace DendroModel.C13` of this file; helper lemmas are in `DendroModel.C13.Aux`.
@@ -581,6 +582,89 @@ theorem dataset_eq_lists_partial (sch : Schema) (cfg : Cfg) (fl : Flags) (toks :
   rw [whole_eq_flatten]
   rfl
 
+/-! ### progress of the shared tree-statement parser: the loops over it need no run-time progress check -/
+
+/-- `NewickReader._parse_tree_statement` consumes at least one token whenever it delivers a tree — for every token stream,
+    option set, namespace and mapper (induction through `_parse_tree_node_description`: child loop, comma loop, label /
+    length loop).  This is the fact the `while True` loops of `NewickReader.tree_iter` and of the Newick yielder rely on. -/
+theorem newickStmt_progress (cfg : Cfg) (ts : TS) (ns : List String) (mp : Mapper) (t : Tree) (ts' : TS) (ns' : List String)
+    (mp' : Mapper) (h : newickStmt cfg ts ns mp = .ok (some t, ts', ns', mp')) : ts'.rest.length < ts.rest.length :=
+  newickStmt_lt cfg ts ns mp t ts' ns' mp' h
+
+/-- the same for a NEXUS `TREE name = …;` statement -/
+theorem nexusTreeStmt_progress (cfg : Cfg) (d : Doc) (mp : Mapper) (t : Tree) (d1 : Doc) (mp1 : Mapper)
+    (h : nexusTreeStmt cfg d mp = .ok (t, d1, mp1)) : d1.ts.rest.length < d.ts.rest.length :=
+  nexusTreeStmt_lt cfg d mp t d1 mp1 h
+
+/-- hence the run-time progress check of the reader's Newick loop is dead code: the loop satisfies the plain unfolding of
+    the Python `while True`, and `Err.stuck` is never produced by this loop itself -/
+theorem newickIter_check_dead {σ} (cfg : Cfg) (S : Sink σ) (ts : TS) (ns : List String) (mp : Mapper) (acc : σ) :
+    newickIter cfg S ts ns mp acc =
+      match newickStmt cfg ts ns mp with
+      | .error e => .error e
+      | .ok (none, _, ns', _) => .ok (acc, ns')
+      | .ok (some t, ts', ns', mp') => newickIter cfg S ts' ns' mp' (S.addTree acc t) := by
+  rw [newickIter.eq_def]
+  cases hst : newickStmt cfg ts ns mp with
+  | error e => rfl
+  | ok r =>
+    obtain ⟨ot, ts', ns', mp'⟩ := r
+    cases ot with
+    | none => rfl
+    | some t => simp only [dif_pos (newickStmt_lt cfg ts ns mp t ts' ns' mp' hst)]
+
+/-- the same for the Newick yielder's own loop -/
+theorem newickYieldLoop_check_dead (cfg : Cfg) (ts : TS) (ns : List String) (mp : Mapper) (out : List Tree) :
+    newickYieldLoop cfg ts ns mp out =
+      match newickStmt cfg ts ns mp with
+      | .error e => .error e
+      | .ok (none, _, ns', _) => .ok (out, ns')
+      | .ok (some t, ts', ns', mp') => newickYieldLoop cfg ts' ns' mp' (out ++ [t]) := by
+  rw [newickYieldLoop.eq_def]
+  cases hst : newickStmt cfg ts ns mp with
+  | error e => rfl
+  | ok r =>
+    obtain ⟨ot, ts', ns', mp'⟩ := r
+    cases ot with
+    | none => rfl
+    | some t => simp only [dif_pos (newickStmt_lt cfg ts ns mp t ts' ns' mp' hst)]
+
+/-- and for the runs of consecutive TREE statements of the NEXUS reader … -/
+theorem treeRunR_check_dead {σ} (cfg : Cfg) (S : Sink σ) (d : Doc) (mp : Mapper) (acc : σ) :
+    treeRunR cfg S d mp acc =
+      match nexusTreeStmt cfg d mp with
+      | .error e => .error e
+      | .ok (t, d1, mp1) =>
+        if d1.ts.eof || d1.ts.cur == none || d1.ts.cur == some "" then .ok (d1, mp1, S.addTree acc t, some "TREE")
+        else if ({ d1 with ts := d1.ts.castU } : Doc).ts.cur != some "TREE" then
+          .ok ({ d1 with ts := d1.ts.castU }, mp1, S.addTree acc t, ({ d1 with ts := d1.ts.castU } : Doc).ts.cur)
+        else treeRunR cfg S { d1 with ts := d1.ts.castU } mp1 (S.addTree acc t) := by
+  rw [treeRunR.eq_def]
+  cases hst : nexusTreeStmt cfg d mp with
+  | error e => rfl
+  | ok r =>
+    obtain ⟨t, d1, mp1⟩ := r
+    have hp : ({ d1 with ts := d1.ts.castU } : Doc).ts.rest.length < d.ts.rest.length := nexusTreeStmt_lt cfg d mp t d1 mp1 hst
+    simp only [dif_pos hp]
+
+/-- … and of the NEXUS yielder -/
+theorem treeRunY_check_dead (cfg : Cfg) (d : Doc) (mp : Mapper) (out : List Tree) :
+    treeRunY cfg d mp out =
+      match nexusTreeStmt cfg d mp with
+      | .error e => .error e
+      | .ok (t, d1, mp1) =>
+        if d1.ts.eof || d1.ts.cur == none || d1.ts.cur == some "" then .ok (d1, mp1, out ++ [t], some "TREE")
+        else if ({ d1 with ts := d1.ts.castU } : Doc).ts.cur != some "TREE" then
+          .ok ({ d1 with ts := d1.ts.castU }, mp1, out ++ [t], ({ d1 with ts := d1.ts.castU } : Doc).ts.cur)
+        else treeRunY cfg { d1 with ts := d1.ts.castU } mp1 (out ++ [t]) := by
+  rw [treeRunY.eq_def]
+  cases hst : nexusTreeStmt cfg d mp with
+  | error e => rfl
+  | ok r =>
+    obtain ⟨t, d1, mp1⟩ := r
+    have hp : ({ d1 with ts := d1.ts.castU } : Doc).ts.rest.length < d.ts.rest.length := nexusTreeStmt_lt cfg d mp t d1 mp1 hst
+    simp only [dif_pos hp]
+
 /-! ### offsets -/
 
 /-- `Tree.get(collection_offset=c, tree_offset=k)` with in-range non-negative offsets delivers exactly tree `k` of
@@ -798,6 +882,15 @@ example : ∃ r ns'', readWith .nexus {} (att {}) pseudoSink docT [] {} [] = .ok
 
 example : nexusYield {} {} (coreOf docT [] {}) [] = nexusRead {} {} pseudoSink (coreOf docT [] {}) [] :=
   reader_eq_yielder_partial {} {} rfl (coreOf docT [] {}) [] docT_noSets
+
+/-- the progress theorem on the statement `a;` -/
+example : ∃ t ts' ns' mp', newickStmt {} { rest := docA, tail := [] } [] (Mapper.new [] false) = .ok (some t, ts', ns', mp') ∧
+    ts'.rest.length < docA.length := by
+  have h : ∃ t ts' ns' mp', newickStmt {} { rest := docA, tail := [] } [] (Mapper.new [] false) = .ok (some t, ts', ns', mp') := by
+    simp [docA, tk, Mapper.new, enumFrom, newickStmt, skipLeadingSemis.eq_def, TS.req, TS.step, TS.clear, TS.isP, processTreeComments,
+      rootingState, parseNode.eq_def, tailLoop.eq_def, suppressTaxon, Mapper.require, lookupCI, TS.next, skipTrailingSemis.eq_def]
+  obtain ⟨t, ts', ns', mp', ht⟩ := h
+  exact ⟨t, ts', ns', mp', ht, newickStmt_progress _ _ _ _ _ _ _ _ ht⟩
 
 example : treeGet .newick {} {} docA [] {} (some ((0 : Nat) : Int)) (some ((0 : Nat) : Int)) none = .ok (treeA, nsA) :=
   offset_spec .newick {} {} docA [] {} nsA [[treeA]] 0 0 [treeA] treeA docA_reads rfl rfl
